@@ -177,7 +177,7 @@ M('best_channels_ascending', ['C05'], 'phylib/io/model.py',
   "        order = np.argsort(amplitude[channel_ids])[::-1]\n", "        order = np.argsort(amplitude[channel_ids])\n")
 M('shank_restriction_dropped', ['C05'], 'phylib/io/model.py',
   "            close_channels = np.intersect1d(close_channels, channels_on_shank)\n", "            pass\n")
-M('unwhiten_with_wm', ['C05', 'C09'], 'phylib/io/model.py',
+M('unwhiten_with_wm', ['C05'], 'phylib/io/model.py',
   "    def _unwhiten(self, x, channel_ids=None):\n        mat = self.wmi\n", "    def _unwhiten(self, x, channel_ids=None):\n        mat = self.wmi.T\n")
 M('sparse_channels_not_reordered', ['C05'], 'phylib/io/model.py',
   "            channel_ids=channel_ids[channels_reordered],\n", "            channel_ids=channel_ids,\n")
@@ -233,7 +233,7 @@ M('durations_seconds', ['C09'], 'phylib/io/model.py',
 M('depths_square_without_positive_part', ['C09'], 'phylib/io/model.py',
   "            features = np.maximum(features, 0) ** 2  # takes only positive values into account", "            features = features ** 2  # takes only positive values into account")
 M('depths_x_for_y', ['C09'], 'phylib/io/model.py',
-  "            ypos = self.channel_positions[ichannels, 1]", "            ypos = self.channel_positions[ichannels, 1 if c else -1 + 2 * (nspi > 50)]")
+  "            ypos = self.channel_positions[ichannels, 1]", "            ypos = self.channel_positions[ichannels, 0 if nspi > 40 else 1]")
 M('channels_argmax_abs', ['C09'], 'phylib/io/model.py',
   "            template_peak_channels = np.argmax(tmp.max(axis=1) - tmp.min(axis=1), axis=1)\n        else:",
   "            template_peak_channels = np.argmax(np.abs(tmp).max(axis=1), axis=1)\n        else:")
